@@ -9,9 +9,9 @@
 (* corresponding pattern.  An empty name / status pattern is how the RPC says   *)
 (* "no filter" (k = "none").  An invalid pattern yields an error and no list.   *)
 (*                                                                             *)
-(* CODE (as it is): the server compiles "^" + expr + "$" WITHOUT grouping, so   *)
-(* a top-level alternation r1|r2|...|rn becomes (^r1)|r2|...|(rn$): r1 matches  *)
-(* any prefix, rn any suffix, the middle ones any substring.                    *)
+(* CODE (as it is since a8ceccf): "^(?:" + expr + ")$" -- the oracle.  Until     *)
+(* then "^" + expr + "$" WITHOUT grouping: a top-level alternation r1|...|rn was *)
+(* (^r1)|r2|...|(rn$) (CodeMatch keeps that meaning for the record).            *)
 (*                                                                             *)
 (* Names and tag values are strings over Regex!Sigma, patterns come from        *)
 (* Regex!RE(d).  Statuses are the words alive/leaving/left/failed; status       *)
@@ -87,16 +87,12 @@ MaxLen == 3   \* names and tag values have at most MaxLen letters
 
 \* Languages are computed once per request (TLC caches LET definitions), members are then looked up.
 Statuses(r) == { st \in 1..4 : MatchW(r, StatusWord(st)) }
-CodeStatuses(r) == { st \in 1..4 : CodeMatch(MatchW, r, StatusWord(st)) }
-\* strings of length <= MaxLen that "^" + render(r) + "$" matches
-CodeLang(r) ==
-  LET bs == Alts(r)  n == Len(bs)
-      LS == [k \in 1..n |-> Lang(bs[k], MaxLen)]
-  IN  IF n = 1 THEN LS[1]
-      ELSE { s \in StrsUpTo(MaxLen) :
-               \E k \in 1..n : \E i \in 1..(Len(s) + 1) : \E j \in (i - 1)..Len(s) :
-                 /\ (k = 1 => i = 1) /\ (k = n => j = Len(s))
-                 /\ SubSeq(s, i, j) \in LS[k] }
+CodeStatuses(r) == Statuses(r)
+\* Since a8ceccf the server compiles "^(?:" + expr + ")$": whole-string matching, like the oracle.
+\* (Before, "^" + expr + "$" anchored a top-level alternation only at its outer ends -- CodeMatch above
+\* describes that -- and made the invalid patterns "*a" and "\" valid: findings C26-top-level-alternation and
+\* C26-anchored-valid, now fixed.)
+CodeLang(r) == Lang(r, MaxLen)
 
 \* the documented meaning
 Expected(pop, q) ==
@@ -107,13 +103,8 @@ Expected(pop, q) ==
                            /\ q.status.k = "re" => pop[x].st \in ss
                            /\ q.tag.k = "re"    => Val(pop[x]) \in ts }
 
-\* Two of the harness' invalid patterns become VALID once the code has put ^ and $ around them without
-\* grouping: 3 = "*a" ("^*a$": the star applies to ^, which may then be skipped: any string ENDING in a)
-\* and 7 = "\" ("^\$": a literal $).
-AnchoredValid == {3, 7}
-CodeEff(p) == IF p.k = "bad" /\ p.i = 3 THEN Pat(<<"cat", <<"star", <<"any">>>>, <<"lit", "a">>>>)
-              ELSE IF p.k = "bad" /\ p.i = 7 THEN Pat(<<"lit", "$">>)
-              ELSE p
+AnchoredValid == {3, 7}     \* "*a" and "\": were valid between bare ^ and $ (historic, see above)
+CodeEff(p) == p
 CodeReq(q0) == [name |-> CodeEff(q0.name), status |-> CodeEff(q0.status), tag |-> CodeEff(q0.tag)]
 
 \* what the code computes
@@ -172,24 +163,18 @@ Init == req = [name |-> None, status |-> None, tag |-> None] /\ out = CodeOut(Po
         /\ last = [a |-> "init"] /\ steps = 0
 
 ------------------------------------------------------------------------------
-\* the model (= the code as it is) satisfies C26 except under the recorded finding's tag
-C26Waived  == bad = {} \/ ("C26_wrong_members" \in bad /\ "top_level_alternation" \in tags)
-                       \/ ("C26_invalid_listed" \in bad /\ "anchored_valid" \in tags)
-\* expected to be VIOLATED: show that the recorded findings are reachable in the model
-C26        == bad = {}
-NoAltFinding  == "C26_wrong_members" \notin bad
-NoAnchFinding == "C26_invalid_listed" \notin bad
+\* the model (= the code as it is) satisfies C26
+C26 == bad = {}
 
 \* laws of the definitions
 Laws(d, L) ==
   /\ \A r \in RE(d) : \A s \in StrsUpTo(L) : MatchW(r, s) <=> FullMatch(r, s)
   /\ \A r \in RE(d) : Lang(r, MaxLen) = { s \in StrsUpTo(MaxLen) : FullMatch(r, s) }
-  /\ \A r \in RE(d) : CodeLang(r) = { s \in StrsUpTo(MaxLen) : CodeMatch(FullMatch, r, s) }
-  /\ \A r \in RE(d) : Len(Alts(r)) = 1 => CodeLang(r) = Lang(r, MaxLen)
-  /\ \A r \in RE(d) : Lang(r, MaxLen) \subseteq CodeLang(r)
+  /\ \A r \in RE(d) : \A s \in StrsUpTo(L) : Len(Alts(r)) = 1 => (CodeMatch(FullMatch, r, s) <=> FullMatch(r, s))
+  /\ \A r \in RE(d) : \A s \in StrsUpTo(L) : FullMatch(r, s) => CodeMatch(FullMatch, r, s)
   /\ \A r \in RE(d) : \A s \in StrsUpTo(L) :
         CodeMatch(FullMatch, r, s) <=>
           LET bs == Alts(r) n == Len(bs) IN
           \E k \in 1..n : PartialMatch([bol |-> k = 1, eol |-> k = n, re |-> bs[k]], s)
-  /\ \A r \in StatusPats : Statuses(r) \subseteq CodeStatuses(r)
+  /\ \A r \in StatusPats : \A st \in 1..4 : MatchW(r, StatusWord(st)) => CodeMatch(MatchW, r, StatusWord(st))
 =============================================================================
